@@ -10,7 +10,9 @@ Fixpoint decode_view (fuel : nat) (s : sexp) : view :=
   | S f =>
       let kids := fun x => map (decode_view f) (as_list x) in
       match as_Z (nth_s 0 s) with
-      | 0%Z => VText (as_bytes (nth_s 1 s))
+      | 0%Z => VText 0 (as_bytes (nth_s 1 s))
+      | 9%Z => VText 1 [(48 + as_N (nth_s 1 s))%N]
+      | 10%Z => VText 0 (as_bytes (nth_s 1 s))   (* into_any(): the owned form of &str is String *)
       | 1%Z => VUnit
       | 2%Z => let a := nth_s 2 s in
                VEl (as_nat (nth_s 1 s))
@@ -18,8 +20,10 @@ Fixpoint decode_view (fuel : nat) (s : sexp) : view :=
                       va_class := as_bytes (nth_s 2 a); va_on := as_bool (nth_s 3 a);
                       va_color := as_bytes (nth_s 4 a) |}
                    (decode_view f (nth_s 3 s))
-      | 3%Z => VTuple (kids (nth_s 1 s))
-      | 4%Z => VEither (as_bool (nth_s 1 s)) (decode_view f (nth_s 2 s))
+      | 3%Z => VTuple false (kids (nth_s 1 s))
+      | 12%Z => VTuple true (kids (nth_s 1 s))
+      | 4%Z => VEither 2 (as_nat (nth_s 1 s)) (decode_view f (nth_s 2 s))
+      | 11%Z => VEither 3 (as_nat (nth_s 1 s)) (decode_view f (nth_s 2 s))
       | 5%Z => VOpt (as_opt (decode_view f) (nth_s 1 s))
       | 6%Z => VVec (kids (nth_s 1 s))
       | _ => VStatic (kids (nth_s 1 s))
@@ -51,13 +55,13 @@ Definition s_old (old : list N) (id : N) : sexp := sbool (memN id old).
 (** every top-level node of a state with its serialisation *)
 Fixpoint node_sexps (old : list N) (s : st) : list (N * sexp) :=
   match s with
-  | SText id t => [(id, Lst [Num 0; sbytes t; s_old old id])]
+  | SText id _ t => [(id, Lst [Num 0; sbytes t; s_old old id])]
   | SUnit id | SOptNone id => [(id, Lst [Num 1; s_old old id])]
   | SEl id tag _ d kids c =>
       let t := node_sexps old c in
       [(id, Lst [Num 2; snat tag; s_attrs d; Lst (map (fun k => lookup_sexp k t) kids); s_old old id])]
-  | STuple l | SStatic l _ => flat_map (node_sexps old) l
-  | SEither _ c | SOptSome c => node_sexps old c
+  | STuple _ l | SStatic l _ => flat_map (node_sexps old) l
+  | SEither _ _ c | SOptSome c => node_sexps old c
   | SVec l mk => flat_map (node_sexps old) l ++ [(mk, Lst [Num 1; s_old old mk])]
   end.
 
@@ -65,8 +69,8 @@ Fixpoint node_sexps (old : list N) (s : st) : list (N * sexp) :=
 Fixpoint inner_ids (s : st) (present : list N) : list N :=
   match s with
   | SEl id _ _ _ kids c => if memN id present then kids ++ inner_ids c kids else []
-  | STuple l | SStatic l _ | SVec l _ => flat_map (fun x => inner_ids x present) l
-  | SEither _ c | SOptSome c => inner_ids c present
+  | STuple _ l | SStatic l _ | SVec l _ => flat_map (fun x => inner_ids x present) l
+  | SEither _ _ c | SOptSome c => inner_ids c present
   | _ => []
   end.
 Definition subtree_ids (s : st) (dom : list N) : list N := dom ++ inner_ids s dom.
